@@ -620,6 +620,34 @@ func c07Scenarios(th bool) []*Scn {
 	return out
 }
 
+// c07SlowTwins: the forced shapes again with one plugin callback taking 300 ms, so that one FSM is
+// far behind the other without spending schedule deviations on keeping it there.
+func c07SlowTwins(th bool) []*Scn {
+	var out []*Scn
+	bound := 1
+	if th {
+		bound = 2
+	}
+	for _, s := range c07Scenarios(th) {
+		fam := scnFamily(s.Name)
+		if fam != "forced-collision" && fam != "forced-kill" && fam != "forced-precedence" {
+			continue
+		}
+		if !th && (strings.Contains(s.Name, ">>") || strings.Contains(s.Name, "<<")) {
+			continue
+		}
+		for _, k := range []struct {
+			kind string
+			n    int
+		}{{"OnOpenMessage", 1}, {"OnOpenMessage", 2}, {"GetCapabilities", 2}, {"OnEstablished", 1}} {
+			t := slowTwin(s, k.kind, k.n, 300*time.Millisecond)
+			t.Bound = bound
+			out = append(out, t)
+		}
+	}
+	return out
+}
+
 func c07Check(c *harness.Ctx) {
 	scns := c07Scenarios(c.Thorough())
 	if c.Thorough() {
@@ -632,6 +660,8 @@ func c07Check(c *harness.Ctx) {
 			}
 		}
 	}
+	scns = withLegacy(scns, legacyEvery(c.Thorough(), 4))
+	scns = append(scns, c07SlowTwins(c.Thorough())...)
 	for i, s := range scns {
 		if !c.Mine(i) {
 			continue
